@@ -178,6 +178,11 @@ def main_check(pid, tier, seed, replay=None):
     prop = load_prop(pid)
     if replay:
         return do_replay(ctx, prop, replay)
+    rd = os.path.join(VERIF, "replays")
+    if os.path.isdir(rd):
+        for fn in os.listdir(rd):
+            if fn.startswith(pid + "-"):
+                os.remove(os.path.join(rd, fn))
     # 0. forbidden constructs
     hits = core.lean_grep()
     if hits:
